@@ -53,6 +53,8 @@ type ScriptPlan struct {
 	// its last bytes together with the end of stream.
 	Interleave  int  `json:"interleave,omitempty"`
 	ErrWithData bool `json:"err_with_data,omitempty"`
+	// AlertWriteFails (refused hellos): writes to the client fail.
+	AlertWriteFails bool `json:"alert_write_fails,omitempty"`
 	// Prime: before the connection under test the process serves a connection
 	// under this other config.
 	Prime *KeySpec `json:"prime,omitempty"`
@@ -181,7 +183,15 @@ func buildScript(seed uint64, p *ScriptPlan) (*built, error) {
 		if p.Grease {
 			e := &echbox.ECHOuter{KDF: 1, AEAD: uint16(1 + r.IntN(3)), ConfigID: byte(r.IntN(256)), Enc: core.Bytes(r, 32), Payload: core.Bytes(r, 100+r.IntN(200))}
 			if len(p.Keys) > 0 && r.IntN(2) == 0 {
-				e.ConfigID = p.Keys[0].ID // GREASE that collides with a held config id
+				// GREASE that collides with a held config id (of a key the library
+				// can use: what it does with a hello that names a key of a KEM it
+				// does not implement is a configuration matter, not judged here)
+				for _, k := range p.Keys {
+					if !k.OtherKEM {
+						e.ConfigID = k.ID
+						break
+					}
+				}
 			}
 			pos := r.IntN(len(h.Exts) + 1)
 			h.Exts = slices.Insert(h.Exts, pos, echbox.Ext{Type: echbox.ExtECH, Data: e.Bytes()})
@@ -663,6 +673,21 @@ func buildScript(seed uint64, p *ScriptPlan) (*built, error) {
 		}
 		b.outerRec = echbox.Record(22, recVer, echbox.Handshake(1, body))
 	}
+	if m := hasMut(p.Mutations, "outer-trailing"); m != nil {
+		// stray octets after the extensions of the authentic outer hello - inside
+		// the handshake message or behind it in the record (no length that the
+		// AAD covers changes)
+		body := o2.Body()
+		junk := core.Bytes(core.NewRand(seed, "junk"), 1+m.A%40)
+		if junk[0] == 0 {
+			junk[0] = 0x5a
+		}
+		if m.B%2 == 0 {
+			b.outerRec = echbox.Record(22, recVer, echbox.Handshake(1, append(body, junk...)))
+		} else {
+			b.outerRec = echbox.Record(22, recVer, append(echbox.Handshake(1, body), junk...))
+		}
+	}
 	if m := hasMut(p.Mutations, "outer-zeros"); m != nil {
 		// zero bytes appended to the authentic outer hello in transit: after the
 		// extensions inside the message, or after the message inside the record
@@ -718,14 +743,20 @@ var (
 	scriptHook        func()
 	scriptHookAfter   int
 	scriptErrWithData bool
+	// scriptWriteFails: every write to the client-side transport fails (the
+	// client is gone or its window is shut for good).
+	scriptWriteFails bool
 )
 
 func runScriptW(keys []ech.Key, in []byte, chunks []int, readBuf int, afterNewConn []byte) (*scriptOutcome, *simnet.ScriptConn) {
 	sc := simnet.NewScript(in)
 	sc.Chunks = chunks
 	sc.ErrWithData = scriptErrWithData
+	if scriptWriteFails {
+		sc.WriteErrAt = 0
+	}
 	hook, hookAfter := scriptHook, scriptHookAfter
-	scriptHook, scriptErrWithData = nil, false
+	scriptHook, scriptErrWithData, scriptWriteFails = nil, false, false
 	o := &scriptOutcome{}
 	var conn *ech.Conn
 	panicked, msg, site := core.Guard(func() {
@@ -879,6 +910,7 @@ func executeScript(t *testing.T, prop string, seed uint64, p *ScriptPlan) *core.
 		}
 	}
 	scriptErrWithData = p.ErrWithData
+	scriptWriteFails = p.AlertWriteFails && p.Expect == "abort"
 	o, _ := runScriptW(b.keys, in, p.Chunks, p.ReadBuf, flight)
 	scriptHook = nil
 	if flight != nil {
@@ -991,7 +1023,25 @@ func executeScript(t *testing.T, prop string, seed uint64, p *ScriptPlan) *core.
 			res.Probe("lie_passed_through")
 			break
 		}
-		checkAbort(res, prop, mk, o.err, o.out, o.closes, o.read, p.Alerts)
+		if p.AlertWriteFails {
+			// the alert cannot be delivered: the error class and the end of
+			// stream are what is left of the rule
+			res.Probe("alert_write_fails")
+			okClass := false
+			for _, a := range p.Alerts {
+				okClass = okClass || errors.Is(o.err, alertClass(a))
+			}
+			switch {
+			case o.err == nil:
+				res.Fail(prop, "not-aborted", mk, "the call returned no error; %d bytes forwarded", len(o.read))
+			case !okClass:
+				res.Fail(prop, "wrong-error-class", mk+" (alert write fails)", "got error %v", o.err)
+			case o.closes == 0:
+				res.Fail(prop, "not-closed", mk+" (alert write fails)", "the transport was not closed after the refused hello: the client never sees the end of stream")
+			}
+		} else {
+			checkAbort(res, prop, mk, o.err, o.out, o.closes, o.read, p.Alerts)
+		}
 	default:
 		res.Harness = "unknown expectation " + p.Expect
 	}
